@@ -215,6 +215,8 @@ func implC04(line string) string {
 		return implEarlyFn(f)
 	case "earlyfs":
 		return implEarlyFs(f)
+	case "pos":
+		return implPos(f)
 	case "early2":
 		return implEarly2(f)
 	case "resv":
@@ -356,5 +358,6 @@ func genC04(c *h.Ctx) {
 	genTruncatedEscapes(c)
 	genEarly(c)
 	genEarly2(c)
+	genPos(c)
 	genResv(c)
 }
